@@ -41,6 +41,7 @@ Fails(e) ==
       [] e.op = "curve_ext" -> CurveExtFails(e)
       [] e.op = "cost" -> CostFails(e)
       [] e.op = "demand" -> DemandFails(e)
+      [] e.op = "inverse_trace" -> InverseTraceFails(e)
       [] e.op = "search" -> SearchFails(e)
       [] e.op = "search_trace" -> SearchTraceFails(e)
       [] e.op = "maxrt" -> MaxRtFails(e)
